@@ -955,3 +955,745 @@ Proof. vm_compute. reflexivity. Qed.
 Example ex_amp : tokens u0 (str_cps "a&b&&c") =
   [TIdent (str_cps "a"); TFix KIllegal; TIdent (str_cps "b"); TFix KAnd; TIdent (str_cps "c")].
 Proof. vm_compute. reflexivity. Qed.
+
+(** * 4. Rendering a token sequence and lexing it back *)
+
+Lemma spell_keyword_In : forall k l w, spell_keyword k l = Some w ->
+  exists s, In (s, k) l /\ w = str_cps s.
+Proof.
+  intros k. induction l as [|[s k'] l IH]; intros w H; cbn [spell_keyword] in H; [discriminate|].
+  destruct (ftoken_eqb k k') eqn:E.
+  - apply ftoken_eqb_eq in E. subst. inversion H. exists s. split; [left; reflexivity|reflexivity].
+  - destruct (IH _ H) as (s' & I & W). exists s'. split; [right; exact I|exact W].
+Qed.
+
+Lemma spell_single_In : forall k l w, spell_single k l = Some w ->
+  exists c, In (c, k) l /\ w = [c].
+Proof.
+  intros k. induction l as [|[c k'] l IH]; intros w H; cbn [spell_single] in H; [discriminate|].
+  destruct (ftoken_eqb k k') eqn:E.
+  - apply ftoken_eqb_eq in E. subst. inversion H. exists c. split; [left; reflexivity|reflexivity].
+  - destruct (IH _ H) as (c' & I & W). exists c'. split; [right; exact I|exact W].
+Qed.
+
+Lemma spell_double_In : forall k l w, spell_double k l = Some w ->
+  exists a b t e, In (a, b, t, e) l /\ ((t = k /\ w = [a; b]) \/ (e = Some k /\ w = [a])).
+Proof.
+  intros k. induction l as [|[[[a b] t] e] l IH]; intros w H; cbn [spell_double] in H; [discriminate|].
+  destruct (ftoken_eqb k t) eqn:E.
+  { apply ftoken_eqb_eq in E. subst. inversion H. exists a, b, t, e. split; [left; reflexivity|].
+    left. split; reflexivity. }
+  destruct e as [k'|].
+  - destruct (ftoken_eqb k k') eqn:E'.
+    + apply ftoken_eqb_eq in E'. subst. inversion H. exists a, b, t, (Some k'). split; [left; reflexivity|].
+      right. split; reflexivity.
+    + destruct (IH _ H) as (a' & b' & t' & e' & I & W). exists a', b', t', e'. split; [right; exact I|exact W].
+  - destruct (IH _ H) as (a' & b' & t' & e' & I & W). exists a', b', t', e'. split; [right; exact I|exact W].
+Qed.
+
+Lemma fixed_spelling_cases : forall k w, fixed_spelling k = Some w ->
+  (exists s, In (s, k) keywords /\ w = str_cps s)
+  \/ (exists c, In (c, k) single_tokens /\ w = [c])
+  \/ (exists a b t e, In (a, b, t, e) double_tokens /\
+                      ((t = k /\ w = [a; b]) \/ (e = Some k /\ w = [a])))
+  \/ (k = KSlash /\ w = [47%N]).
+Proof.
+  intros k w H. unfold fixed_spelling in H.
+  destruct (spell_keyword k keywords) as [w1|] eqn:E1.
+  { inversion H; subst. left. apply spell_keyword_In. exact E1. }
+  destruct (spell_single k single_tokens) as [w2|] eqn:E2.
+  { inversion H; subst. right. left. apply spell_single_In. exact E2. }
+  destruct (spell_double k double_tokens) as [w3|] eqn:E3.
+  { inversion H; subst. right. right. left. apply spell_double_In. exact E3. }
+  destruct (ftoken_eqb k KSlash) eqn:E4; [|discriminate].
+  apply ftoken_eqb_eq in E4. inversion H. right. right. right. split; [exact E4|reflexivity].
+Qed.
+
+(* table checks *)
+Definition ascii_letter (c : N) : bool := (c <? 128)%N && ascii_alpha c.
+Definition ascii_word_char (c : N) : bool :=
+  (c <? 128)%N && (ascii_alpha c || is_digit c || (c =? 95)%N).
+Definition keyword_shape_ok (p : string * ftoken) : bool :=
+  match str_cps (fst p) with
+  | c :: a => ascii_letter c && forallb ascii_word_char a
+  | [] => false
+  end.
+Lemma keyword_shapes_ok : forallb keyword_shape_ok keywords = true.
+Proof. vm_compute. reflexivity. Qed.
+
+Definition single_head_ok (p : N * ftoken) : bool :=
+  let '(c, k) := p in
+  (c <? 128)%N && negb (ascii_alpha c || (c =? 95)%N) && negb (is_digit c) && negb (c =? 34)%N
+  && negb (is_ws c) && negb (c =? 47)%N
+  && match find_double c double_tokens with None => true | Some _ => false end
+  && match assoc N.eqb c single_tokens with Some k' => ftoken_eqb k' k | None => false end.
+Lemma single_heads_ok : forallb single_head_ok single_tokens = true.
+Proof. vm_compute. reflexivity. Qed.
+
+Definition prefix_ok (p : N * N * ftoken * option ftoken) : bool :=
+  let '(a, b, t, e) := p in
+  match e with Some k => negb (is_keyword k) && negb (ftoken_eqb k KSlash) | None => true end.
+Lemma prefixes_ok : forallb prefix_ok double_tokens = true.
+Proof. vm_compute. reflexivity. Qed.
+
+(* the first character of the spelling of a proper fixed token: ASCII, never a digit, and a
+   word character only for keywords *)
+Definition fixed_head_ok (k : ftoken) : bool :=
+  match fixed_spelling k with
+  | Some (c :: _) =>
+      (c <? 128)%N && negb (is_digit c)
+      && (is_keyword k || negb (ascii_alpha c || is_digit c || (c =? 95)%N))
+  | _ => false
+  end.
+Lemma fixed_heads_ok : forall k, legal k = true -> fixed_head_ok k = true.
+Proof. intros k H. destruct k; try discriminate H; vm_compute; reflexivity. Qed.
+
+(* the clash test of [prefix] tokens against a fixed character *)
+Definition prefix_clash_char (k : ftoken) (c : cp) : bool :=
+  existsb (fun '(a, b, t, e) =>
+             match e with Some k' => ftoken_eqb k k' && (c =? b)%N | None => false end)
+          double_tokens.
+
+Lemma no_prefix_clash_slash : forall k, prefix_clash_char k 47%N = false.
+Proof. intros k. destruct k; vm_compute; reflexivity. Qed.
+
+Lemma no_prefix_clash_ws : forall k c, is_ws c = true -> prefix_clash_char k c = false.
+Proof.
+  intros k c H. apply is_ws_In in H. revert c H.
+  assert (G : forallb (fun c => negb (prefix_clash_char k c)) whitespace = true)
+    by (destruct k; vm_compute; reflexivity).
+  rewrite forallb_forall in G. intros c H. apply negb_true_iff. exact (G c H).
+Qed.
+
+Section RenderLex.
+  Variable u : unicode.
+
+  (* would c, standing right after the spelling of t, change how t is lexed? *)
+  Definition clash (t : token) (c : cp) : bool :=
+    match t with
+    | TIdent _ => ident_char u c
+    | TIntLit _ => is_digit c || (c =? 46)%N
+    | TFloatLit _ => is_digit c
+    | TStringLit _ => false
+    | TFix k =>
+        if is_keyword k then ident_char u c
+        else if ftoken_eqb k KSlash then (c =? 47)%N
+        else prefix_clash_char k c
+    end.
+
+  Definition follow_ok (t : token) (tail : text) : Prop :=
+    match tail with [] => True | c :: _ => clash t c = false end.
+
+  Lemma is_keyword_In : forall s k, In (s, k) keywords -> is_keyword k = true.
+  Proof.
+    intros s k I. unfold is_keyword. apply existsb_exists. exists (s, k). split; [exact I|].
+    apply ftoken_eqb_refl.
+  Qed.
+
+  Lemma ascii_word_char_ident : forall a, forallb ascii_word_char a = true -> forallb (ident_char u) a = true.
+  Proof.
+    induction a as [|c a IH]; intros H; [reflexivity|].
+    cbn [forallb] in H |- *. apply andb_true_iff in H. destruct H as [Hc H].
+    unfold ascii_word_char in Hc. apply andb_true_iff in Hc. destruct Hc as [L W]. apply N.ltb_lt in L.
+    rewrite (ident_char_ascii u c L), W, (IH H). reflexivity.
+  Qed.
+
+  Lemma keyword_lexes : forall s k tail pos f, In (s, k) keywords -> stops (ident_char u) tail ->
+    next_token u (S f) (str_cps s ++ tail) pos = Some (TFix k, tail, pos + utf8_len (str_cps s)).
+  Proof.
+    intros s k tail pos f I ST.
+    pose proof keyword_shapes_ok as K. rewrite forallb_forall in K. specialize (K _ I).
+    unfold keyword_shape_ok in K. cbn [fst] in K.
+    assert (KW : keyword_or_ident (str_cps s) = TFix k) by (apply keyword_iff; exists s; split; auto).
+    destruct (str_cps s) as [|c a]; [discriminate|].
+    apply andb_true_iff in K. destruct K as [Kc Ka].
+    unfold ascii_letter in Kc. apply andb_true_iff in Kc. destruct Kc as [L A]. apply N.ltb_lt in L.
+    cbn [app]. rewrite word_lexes; auto.
+    - rewrite KW. reflexivity.
+    - rewrite (ident_start_ascii u c L), A. reflexivity.
+    - apply ascii_word_char_ident. exact Ka.
+  Qed.
+
+  Lemma single_lexes : forall c k tail pos f, In (c, k) single_tokens ->
+    next_token u (S f) (c :: tail) pos = Some (TFix k, tail, pos + 1).
+  Proof.
+    intros c k tail pos f I.
+    pose proof single_heads_ok as K. rewrite forallb_forall in K. specialize (K _ I).
+    unfold single_head_ok in K.
+    repeat (apply andb_true_iff in K; let X := fresh "X" in destruct K as [K X]).
+    apply N.ltb_lt in K. apply negb_true_iff in X5, X4, X3, X2, X1.
+    rewrite next_token_punct; auto.
+    - destruct (find_double c double_tokens); [discriminate|].
+      destruct (assoc N.eqb c single_tokens) as [k'|]; [|discriminate].
+      apply ftoken_eqb_eq in X. subst. rewrite (utf8_len1_ascii c K). reflexivity.
+    - rewrite (ident_start_ascii u c K). exact X5.
+  Qed.
+
+  Lemma slash_at_end : forall pos f, next_token u (S f) [47%N] pos = Some (TFix KSlash, [], pos + 1).
+  Proof.
+    intros pos f. rewrite next_token_S. cbv zeta.
+    rewrite (ident_start_ascii u 47%N) by reflexivity. reflexivity.
+  Qed.
+
+  (* Lemma A: the spelling of a printable token, followed by anything that does not clash with
+     it, lexes to exactly that token *)
+  Lemma spelling_lexes : forall t tail pos f, printable u t -> follow_ok t tail ->
+    next_token u (S f) (spelling t ++ tail) pos = Some (t, tail, pos + utf8_len (spelling t)).
+  Proof.
+    intros t tail pos f P FO. destruct t as [w|w|w|r|k]; cbn [printable] in P.
+    - (* identifier *)
+      destruct P as [SH NK]. destruct w as [|c a]; [contradiction|]. destruct SH as [H1 H2].
+      cbn [spelling app]. rewrite word_lexes; [|assumption|assumption|exact FO].
+      unfold keyword_or_ident. rewrite NK. reflexivity.
+    - (* integer *)
+      destruct P as [NE D]. destruct w as [|c ds]; [congruence|].
+      cbn [forallb] in D. apply andb_true_iff in D. destruct D as [Dc Dd].
+      cbn [spelling app]. rewrite int_lexes; [reflexivity|assumption|assumption|exact FO].
+    - (* float *)
+      destruct P as (ds & fs & -> & NE & Dd & Df). destruct ds as [|c ds]; [congruence|].
+      cbn [forallb] in Dd. apply andb_true_iff in Dd. destruct Dd as [Dc Dd].
+      cbn [spelling app]. rewrite <- app_assoc. cbn [app]. rewrite float_lexes; [|assumption|assumption|assumption|exact FO].
+      reflexivity.
+    - (* string *)
+      cbn [spelling app]. rewrite <- app_assoc. cbn [app]. rewrite raw_string_lexes by exact P.
+      do 2 f_equal. rewrite utf8_len_cons, utf8_len_app. change (utf8_len1 34%N) with 1.
+      change (utf8_len [34%N]) with 1. lia.
+    - (* fixed token *)
+      destruct (proj1 (fixed_spelling_total k) P) as (w & W & WN).
+      cbn [spelling]. rewrite W.
+      destruct (fixed_spelling_cases k w W)
+        as [(s & I & ->)|[(c & I & ->)|[(a & b & t & e & I & [[-> ->]|[-> ->]])|[-> ->]]]].
+      + apply keyword_lexes; [exact I|]. destruct tail as [|c tl]; [exact Logic.I|].
+        cbn [follow_ok clash] in FO. rewrite (is_keyword_In _ _ I) in FO. exact FO.
+      + cbn [app]. rewrite (single_lexes _ _ _ _ _ I).
+        pose proof single_heads_ok as K. rewrite forallb_forall in K. specialize (K _ I).
+        unfold single_head_ok in K.
+        repeat (apply andb_true_iff in K; let X := fresh "X" in destruct K as [K X]).
+        apply N.ltb_lt in K. rewrite utf8_len_cons, (utf8_len1_ascii c K). reflexivity.
+      + cbn [app]. rewrite (two_char_first u _ _ _ _ _ _ _ I).
+        destruct (double_row u _ _ _ _ I) as (_ & _ & _ & _ & _ & _ & La & Lb & _).
+        rewrite !utf8_len_cons, La, Lb. reflexivity.
+      + destruct (double_row u _ _ _ _ I) as (_ & _ & _ & _ & _ & _ & La & Lb & _).
+        cbn [app]. rewrite utf8_len_cons, La. change (utf8_len []) with 0.
+        destruct tail as [|c tl].
+        * rewrite (one_char_at_end u _ _ _ _ _ _ I). reflexivity.
+        * rewrite (one_char_otherwise u _ _ _ _ c tl _ _ I); [reflexivity|].
+          cbn [follow_ok clash] in FO.
+          pose proof prefixes_ok as K. rewrite forallb_forall in K. specialize (K _ I).
+          cbn [prefix_ok] in K. apply andb_true_iff in K. destruct K as [K1 K2].
+          apply negb_true_iff in K1, K2. rewrite K1, K2 in FO.
+          unfold prefix_clash_char in FO.
+          intros ->.
+          apply not_true_iff_false in FO. apply FO.
+          apply existsb_exists. exists (a, b, t, Some k). split; [exact I|].
+          cbn beta iota. rewrite ftoken_eqb_refl, N.eqb_refl. reflexivity.
+      + cbn [app]. change (utf8_len [47%N]) with 1.
+        destruct tail as [|c tl]; [apply slash_at_end|].
+        cbn [follow_ok clash] in FO. change (is_keyword KSlash) with false in FO.
+        change (ftoken_eqb KSlash KSlash) with true in FO. cbv iota in FO.
+        apply slash_otherwise. apply N.eqb_neq. exact FO.
+  Qed.
+
+  Lemma printable_spelling_nonempty : forall t, printable u t -> spelling t <> [].
+  Proof.
+    intros [w|w|w|r|k] P; cbn [printable spelling] in *.
+    - destruct P as [P _]. destruct w; [contradiction|discriminate].
+    - destruct P as [P _]. exact P.
+    - destruct P as (ds & fs & -> & _). destruct ds; discriminate.
+    - discriminate.
+    - destruct (proj1 (fixed_spelling_total k) P) as (w & W & WN). rewrite W. exact WN.
+  Qed.
+
+  (** ** what the first character of a spelling can be *)
+
+  Lemma head_nonword : forall t c tl, printable u t -> spelling t = c :: tl -> wordlike t = false ->
+    ident_char u c = false.
+  Proof.
+    intros [w|w|w|r|k] c tl P S W; cbn [wordlike] in W; try discriminate W.
+    - cbn [spelling] in S. inversion S; subst. rewrite (ident_char_ascii u 34%N) by reflexivity. reflexivity.
+    - cbn [printable] in P. apply legal_iff in P. pose proof (fixed_heads_ok k P) as H.
+      unfold fixed_head_ok in H. cbn [spelling] in S.
+      destruct (fixed_spelling k) as [[|c' tl']|]; try discriminate H. inversion S; subst.
+      rewrite W in H. cbn [orb] in H.
+      apply andb_true_iff in H. destruct H as [H H3]. apply andb_true_iff in H. destruct H as [H1 H2].
+      apply N.ltb_lt in H1. rewrite (ident_char_ascii u c H1). apply negb_true_iff in H3. exact H3.
+  Qed.
+
+  Lemma head_nondigit : forall t c tl, printable u t -> spelling t = c :: tl -> numberlike t = false ->
+    is_digit c = false.
+  Proof.
+    intros [w|w|w|r|k] c tl P S W; cbn [numberlike] in W; try discriminate W.
+    - cbn [spelling] in S. subst w. cbn [printable] in P. destruct P as [[P _] _].
+      destruct (is_digit c) eqn:D; [|reflexivity].
+      rewrite (digit_not_ident_start u c D) in P. discriminate.
+    - cbn [spelling] in S. inversion S; subst. reflexivity.
+    - cbn [printable] in P. apply legal_iff in P. pose proof (fixed_heads_ok k P) as H.
+      unfold fixed_head_ok in H. cbn [spelling] in S.
+      destruct (fixed_spelling k) as [[|c' tl']|]; try discriminate H. inversion S; subst.
+      apply andb_true_iff in H. destruct H as [H H3]. apply andb_true_iff in H. destruct H as [H1 H2].
+      apply negb_true_iff in H2. exact H2.
+  Qed.
+
+  Lemma starts_with_head : forall t c tl x, spelling t = c :: tl -> starts_with x t = (c =? x)%N.
+  Proof. intros t c tl x S. unfold starts_with. rewrite S. reflexivity. Qed.
+
+  (* Lemma B: needs_sep is a sound approximation of clash *)
+  Lemma needs_sep_clash : forall t1 t2 c tl, printable u t2 -> spelling t2 = c :: tl ->
+    needs_sep t1 t2 = false -> clash t1 c = false.
+  Proof.
+    intros t1 t2 c tl P S NS. destruct t1 as [w|w|w|r|k]; cbn [needs_sep] in NS; cbn [clash].
+    - eapply head_nonword; eauto.
+    - apply orb_false_iff in NS. destruct NS as [N1 N2].
+      rewrite (starts_with_head _ _ _ _ S) in N2. rewrite N2.
+      rewrite (head_nondigit _ _ _ P S N1). reflexivity.
+    - eapply head_nondigit; eauto.
+    - reflexivity.
+    - destruct (is_keyword k); [eapply head_nonword; eauto|].
+      destruct (ftoken_eqb k KSlash).
+      + rewrite (starts_with_head _ _ _ _ S) in NS. exact NS.
+      + unfold prefix_clash in NS. unfold starts_with in NS. rewrite S in NS. exact NS.
+  Qed.
+
+  Lemma ws_facts : forall c, is_ws c = true ->
+    is_digit c = false /\ (c =? 34)%N = false /\ (c =? 46)%N = false /\ (c =? 47)%N = false.
+  Proof.
+    intros c H. apply is_ws_In in H. pose proof ws_table_ok as K. rewrite forallb_forall in K.
+    specialize (K _ H). unfold ws_entry_ok in K.
+    repeat (apply andb_true_iff in K; let X := fresh "X" in destruct K as [K X]).
+    apply negb_true_iff in K, X3, X2, X1. auto.
+  Qed.
+
+  Lemma sep_char_facts : forall c, sep_char u c = true ->
+    is_ws c = true /\ ident_start u c = false /\ ident_char u c = false.
+  Proof.
+    intros c H. unfold sep_char in H. apply andb_true_iff in H. destruct H as [H H3].
+    apply andb_true_iff in H. destruct H as [H1 H2]. apply negb_true_iff in H2, H3. auto.
+  Qed.
+
+  (* Lemma E: an admissible white-space character ends every token *)
+  Lemma sep_char_no_clash : forall t c, sep_char u c = true -> clash t c = false.
+  Proof.
+    intros t c H. destruct (sep_char_facts c H) as (W & IS & IC).
+    destruct (ws_facts c W) as (D & Q & DOT & SL).
+    destruct t as [w|w|w|r|k]; cbn [clash]; auto.
+    - rewrite D, DOT. reflexivity.
+    - destruct (is_keyword k); [exact IC|]. destruct (ftoken_eqb k KSlash); [exact SL|].
+      apply no_prefix_clash_ws. exact W.
+  Qed.
+
+  (* Lemma F: so does the '/' of a comment, except after '/' *)
+  Lemma slash_no_clash : forall t, t <> TFix KSlash -> clash t 47%N = false.
+  Proof.
+    intros t NE. assert (IC : ident_char u 47%N = false)
+      by (rewrite (ident_char_ascii u 47%N) by reflexivity; reflexivity).
+    destruct t as [w|w|w|r|k]; cbn [clash]; auto.
+    destruct (is_keyword k); [exact IC|]. destruct (ftoken_eqb k KSlash) eqn:E.
+    - apply ftoken_eqb_eq in E. subst. congruence.
+    - apply no_prefix_clash_slash.
+  Qed.
+
+  (** ** skipping separators *)
+
+  Lemma next_token_ws : forall c r pos f, sep_char u c = true ->
+    next_token u (S f) (c :: r) pos = next_token u f r (pos + utf8_len1 c).
+  Proof.
+    intros c r pos f H. destruct (sep_char_facts c H) as (W & IS & IC).
+    destruct (ws_facts c W) as (D & Q & DOT & SL).
+    rewrite next_token_S. cbv zeta. rewrite IS, D, Q, W. reflexivity.
+  Qed.
+
+  Lemma newline_sep_char : sep_char u 10%N = true.
+  Proof.
+    unfold sep_char. rewrite (ident_start_ascii u 10%N) by reflexivity.
+    rewrite (ident_char_ascii u 10%N) by reflexivity. reflexivity.
+  Qed.
+
+  Lemma next_token_comment : forall body tail pos f, no_newline body = true ->
+    stops (fun x => negb (x =? 10)%N) tail ->
+    next_token u (S f) (47%N :: 47%N :: body ++ tail) pos = next_token u f tail (pos + 2 + utf8_len body).
+  Proof.
+    intros body tail pos f NN ST. rewrite next_token_S. cbv zeta.
+    rewrite (ident_start_ascii u 47%N) by reflexivity.
+    change (ascii_alpha 47%N || (47 =? 95)%N) with false. cbv iota.
+    change (is_digit 47%N) with false. change (47 =? 34)%N with false. change (is_ws 47%N) with false.
+    change (47 =? 47)%N with true. cbv iota.
+    change (47%N :: body ++ tail) with ((47%N :: body) ++ tail).
+    rewrite span_exact; [| |exact ST].
+    - rewrite utf8_len_cons. change (utf8_len1 47%N) with 1. f_equal. lia.
+    - cbn [forallb]. apply andb_true_iff. split; [reflexivity|exact NN].
+  Qed.
+
+  (* Lemma C *)
+  Lemma skip_sepgap : forall g, sepgap u g -> forall s pos f r,
+    next_token u f s (pos + utf8_len g) = Some r -> next_token u (f + length g) (g ++ s) pos = Some r.
+  Proof.
+    intros g H. induction H as [|c g SC H IH|body g NN H IH]; intros s pos f r E.
+    - rewrite utf8_len_nil, Z.add_0_r in E. cbn [length app]. rewrite Nat.add_0_r. exact E.
+    - cbn [length app]. rewrite Nat.add_succ_r. rewrite next_token_ws by exact SC.
+      apply IH. rewrite utf8_len_cons, Z.add_assoc in E. exact E.
+    - apply (next_token_fuel_mono u (S (S (f + length g)))).
+      2:{ cbn [length]. rewrite app_length. cbn [length]. lia. }
+      cbn [app]. rewrite <- app_assoc. cbn [app].
+      rewrite next_token_comment; [|exact NN|reflexivity].
+      rewrite next_token_ws by exact newline_sep_char.
+      apply IH.
+      match goal with |- next_token u f s ?p = _ => replace p with (pos + utf8_len (47%N :: 47%N :: body ++ 10%N :: g)) end; [exact E|].
+      rewrite !utf8_len_cons, utf8_len_app, utf8_len_cons. change (utf8_len1 47%N) with 1.
+      change (utf8_len1 10%N) with 1. lia.
+  Qed.
+
+  (* Lemma D *)
+  Lemma skip_sepgap_none : forall g, sepgap u g -> forall s,
+    (forall f pos, next_token u f s pos = None) -> forall f pos, next_token u f (g ++ s) pos = None.
+  Proof.
+    intros g H. induction H as [|c g SC H IH|body g NN H IH]; intros s E f pos.
+    - apply E.
+    - destruct f as [|f]; [reflexivity|]. cbn [app]. rewrite next_token_ws by exact SC. apply IH. exact E.
+    - destruct f as [|f]; [reflexivity|]. cbn [app]. rewrite <- app_assoc. cbn [app].
+      rewrite next_token_comment; [|exact NN|reflexivity].
+      destruct f as [|f]; [reflexivity|]. rewrite next_token_ws by exact newline_sep_char.
+      apply IH. exact E.
+  Qed.
+
+  Lemma trailgap_none : forall g, trailgap u g -> forall f pos, next_token u f g pos = None.
+  Proof.
+    intros g H. destruct H as [g H|g body H NN]; intros f pos.
+    - rewrite <- (app_nil_r g). apply skip_sepgap_none; [exact H|]. intros. apply next_token_nil.
+    - apply skip_sepgap_none; [exact H|]. clear f pos. intros f pos.
+      destruct f as [|f]; [reflexivity|]. rewrite <- (app_nil_r body).
+      rewrite next_token_comment; [|exact NN|exact Logic.I]. apply next_token_nil.
+  Qed.
+
+  (** ** what follows a token in a rendering does not clash with it *)
+
+  Lemma sepgap_head : forall c g, sepgap u (c :: g) -> sep_char u c = true \/ c = 47%N.
+  Proof. intros c g H. inversion H; subst; [left; assumption|right; reflexivity]. Qed.
+
+  Lemma trailgap_head : forall c g, trailgap u (c :: g) -> sep_char u c = true \/ c = 47%N.
+  Proof.
+    intros c g H. inversion H as [g0 H0 E|g0 body H0 NN E]; subst.
+    - eapply sepgap_head. exact H0.
+    - destruct g0 as [|c0 g0]; cbn [app] in E; inversion E; subst.
+      + right. reflexivity.
+      + eapply sepgap_head. exact H0.
+  Qed.
+
+  Lemma gap_head_no_clash : forall t c, (sep_char u c = true \/ c = 47%N) ->
+    (c = 47%N -> t <> TFix KSlash) -> clash t c = false.
+  Proof.
+    intros t c [H| ->] NS; [apply sep_char_no_clash; exact H|].
+    apply slash_no_clash. apply NS. reflexivity.
+  Qed.
+
+  Lemma follow_render : forall t r trail, admissible u (Some t) r -> trailgap u trail ->
+    trail_admissible (last_tok (Some t) r) trail -> follow_ok t (render r trail).
+  Proof.
+    intros t r trail A TG TA. destruct r as [|[sep t'] r'].
+    - cbn [render last_tok] in *. destruct trail as [|c tl]; [exact Logic.I|].
+      cbn [follow_ok]. cbn [trail_admissible] in TA.
+      apply gap_head_no_clash; [eapply trailgap_head; exact TG|exact TA].
+    - cbn [admissible] in A. destruct A as (SG & P & SA & _). cbn [render].
+      destruct sep as [|c sep'].
+      + cbn [app]. cbn [sep_admissible] in SA.
+        pose proof (printable_spelling_nonempty t' P) as NE.
+        destruct (spelling t') as [|c tl] eqn:S; [congruence|]. cbn [app follow_ok].
+        eapply needs_sep_clash; eauto.
+      + cbn [app follow_ok]. cbn [sep_admissible] in SA.
+        apply gap_head_no_clash; [eapply sepgap_head; exact SG|exact SA].
+  Qed.
+
+  Lemma lex_render_from : forall trail, trailgap u trail -> forall items prev pos,
+    admissible u prev items -> trail_admissible (last_tok prev items) trail ->
+    map fst (lex_fuel u (S (length (render items trail))) (render items trail) pos) = map snd items.
+  Proof.
+    intros trail TG. induction items as [|[sep t] r IH]; intros prev pos A TA.
+    - cbn [render map]. rewrite lex_fuel_stop; [reflexivity|]. apply trailgap_none. exact TG.
+    - pose proof A as A'. cbn [admissible] in A'. destruct A' as (SG & P & SA & AR).
+      cbn [last_tok] in TA. cbn [render].
+      assert (E : next_token u (S (length (sep ++ spelling t ++ render r trail)))
+                    (sep ++ spelling t ++ render r trail) pos
+                  = Some (t, render r trail, pos + utf8_len sep + utf8_len (spelling t))).
+      { apply (next_token_fuel_mono u (1 + length sep)); [|rewrite app_length; lia].
+        apply skip_sepgap; [exact SG|].
+        apply spelling_lexes; [exact P|]. apply follow_render; assumption. }
+      rewrite (lex_fuel_step u _ _ _ _ _ E). cbn [map fst snd]. f_equal.
+      apply (IH (Some t)); assumption.
+  Qed.
+
+  (* C08, round trip on token sequences: printable tokens, written with admissible separators
+     (white space and newline-closed comments, non-empty wherever needs_sep asks for one) and an
+     optional trailing gap, lex back to exactly the same tokens. *)
+  Theorem lex_render : forall items trail,
+    admissible u None items -> trailgap u trail -> trail_admissible (last_tok None items) trail ->
+    tokens u (render items trail) = map snd items.
+  Proof.
+    intros items trail A TG TA. unfold tokens, lex. apply (lex_render_from trail TG items None 0 A TA).
+  Qed.
+
+  Lemma space_sep_char : sep_char u 32%N = true.
+  Proof.
+    unfold sep_char. rewrite (ident_start_ascii u 32%N) by reflexivity.
+    rewrite (ident_char_ascii u 32%N) by reflexivity. reflexivity.
+  Qed.
+
+  Lemma spaced_admissible : forall r t, Forall (printable u) r ->
+    admissible u (Some t) (map (fun t' => ([32%N], t')) r).
+  Proof.
+    induction r as [|t' r IH]; intros t F; [exact Logic.I|].
+    inversion F as [|x l P F']; subst. cbn [map admissible].
+    split; [apply sg_ws; [exact space_sep_char|constructor]|].
+    split; [exact P|]. split; [cbn [sep_admissible]; discriminate|]. apply IH. exact F'.
+  Qed.
+
+  (* the simple layout: one space between consecutive tokens *)
+  Theorem lex_render_spaces : forall ts, Forall (printable u) ts -> tokens u (render_spaces ts) = ts.
+  Proof.
+    intros ts F. unfold render_spaces. rewrite lex_render.
+    - destruct ts as [|t r]; [reflexivity|]. cbn [space_items map snd]. f_equal.
+      rewrite map_map. cbn [snd]. apply map_id.
+    - destruct ts as [|t r]; [exact Logic.I|]. inversion F as [|x l P F']; subst.
+      cbn [space_items admissible]. split; [constructor|]. split; [exact P|].
+      split; [exact Logic.I|]. apply spaced_admissible. exact F'.
+    - apply tg_sep. constructor.
+    - destruct (last_tok None (space_items ts)); exact Logic.I.
+  Qed.
+End RenderLex.
+
+(** ** Examples: the hypotheses are satisfiable, and the separators are needed *)
+
+Example ex_render_items : list (text * token) :=
+  [ ([], TFix KDeclare); ([32%N], TIdent (str_cps "x")); ([], TFix KAssign);
+    ([], TIntLit (str_cps "12")); ([], TFix KSemi); ([9%N; 10%N], TFloatLit (str_cps "3."));
+    ([], TFix KDot); ([], TFix KSlash); (32%N :: str_cps "// c/" ++ [10%N], TFix KSlash);
+    ([], TStringLit (quote (str_cps "a""b\"))); ([], TFix KIf); ([], TFix KLt); ([32%N], TFix KEq) ].
+
+Example ex_render_text :
+  render ex_render_items (str_cps " // end")
+  = str_cps "stel x=12;" ++ [9%N; 10%N] ++ str_cps "3../ // c/" ++ [10%N]
+    ++ str_cps "/""a\""b\\""als< == // end".
+Proof. vm_compute. reflexivity. Qed.
+
+Example ex_render_admissible : admissible u0 None ex_render_items.
+Proof.
+  unfold ex_render_items. cbn [admissible].
+  repeat match goal with
+         | |- _ /\ _ => split
+         | |- sepgap _ [] => constructor
+         | |- sepgap _ [32%N] => apply sg_ws; [reflexivity|constructor]
+         | |- sep_admissible _ _ _ => cbn; try reflexivity; try discriminate; try exact Logic.I
+         | |- True => exact Logic.I
+         end.
+  all: try (cbn; repeat split; try reflexivity; discriminate).
+  - apply sg_ws; [reflexivity|]. apply sg_ws; [reflexivity|constructor].
+  - exists (str_cps "3"), []. repeat split; try reflexivity; discriminate.
+  - apply sg_ws; [reflexivity|]. apply (sg_comment u0 (str_cps " c/") []); [reflexivity|constructor].
+  - apply quote_raw.
+Qed.
+
+Example ex_render_lexes :
+  tokens u0 (render ex_render_items (str_cps " // end")) = map snd ex_render_items.
+Proof.
+  apply lex_render.
+  - exact ex_render_admissible.
+  - apply (tg_comment u0 [32%N] (str_cps " end")); [apply sg_ws; [reflexivity|constructor]|reflexivity].
+  - cbn. discriminate.
+Qed.
+
+(* without the separator that needs_sep asks for, the text means something else *)
+Example ex_sep_needed_words : needs_sep (TFix KIf) (TIdent (str_cps "of")) = true
+  /\ tokens u0 (str_cps "alsof") = [TIdent (str_cps "alsof")].
+Proof. split; vm_compute; reflexivity. Qed.
+Example ex_sep_needed_int_dot : needs_sep (TIntLit (str_cps "1")) (TFix KDot) = true
+  /\ tokens u0 (str_cps "1.") = [TFloatLit (str_cps "1.")].
+Proof. split; vm_compute; reflexivity. Qed.
+Example ex_sep_needed_assign : needs_sep (TFix KAssign) (TFix KEq) = true
+  /\ tokens u0 (str_cps "===") = [TFix KEq; TFix KAssign].
+Proof. split; vm_compute; reflexivity. Qed.
+Example ex_sep_needed_slash : needs_sep (TFix KSlash) (TFix KSlash) = true
+  /\ tokens u0 (str_cps "//") = [].
+Proof. split; vm_compute; reflexivity. Qed.
+(* ... and where it asks for none, none is needed *)
+Example ex_no_sep_int_word : needs_sep (TIntLit (str_cps "1")) (TIdent (str_cps "x")) = false
+  /\ tokens u0 (str_cps "1x") = [TIntLit (str_cps "1"); TIdent (str_cps "x")].
+Proof. split; vm_compute; reflexivity. Qed.
+Example ex_no_sep_float_dot : needs_sep (TFloatLit (str_cps "1.5")) (TFix KDot) = false
+  /\ tokens u0 (str_cps "1.5.") = [TFloatLit (str_cps "1.5"); TFix KDot].
+Proof. split; vm_compute; reflexivity. Qed.
+
+(** * 5. The lexer's own output is printable; strings at the level of token lists *)
+
+(* decidable reading of `terminated`, by the scan itself *)
+Lemma terminated_iff : forall body, terminated body <-> snd (span_string false body) <> [].
+Proof.
+  intros body. destruct (span_string_cases body) as [(r & rest & Hr & E & S)|(NT & S)]; rewrite S; cbn [snd].
+  - split; [discriminate|]. intros _. exists r, rest. split; assumption.
+  - split; [intros T; contradiction|congruence].
+Qed.
+
+Lemma span_number_shape : forall s d a b d', span_number d s = (a, b, d') ->
+  if d then d' = true /\ forallb is_digit a = true
+  else if d' then exists ds fs, a = ds ++ 46%N :: fs /\ forallb is_digit ds = true /\ forallb is_digit fs = true
+       else forallb is_digit a = true.
+Proof.
+  induction s as [|c s IH]; intros d a b d' H; cbn [span_number] in H.
+  - inversion H; subst. destruct d'; [split|]; reflexivity.
+  - destruct (is_digit c) eqn:D.
+    + destruct (span_number d s) as [[a0 b0] d0] eqn:E. inversion H; subst. specialize (IH _ _ _ _ E).
+      destruct d.
+      * destruct IH as [-> IH]. split; [reflexivity|]. cbn [forallb]. rewrite D, IH. reflexivity.
+      * destruct d'.
+        -- destruct IH as (ds & fs & -> & H1 & H2). exists (c :: ds), fs. split; [reflexivity|].
+           split; [cbn [forallb]; rewrite D, H1; reflexivity|exact H2].
+        -- cbn [forallb]. rewrite D, IH. reflexivity.
+    + destruct (negb d && (c =? 46)%N) eqn:C.
+      * apply andb_true_iff in C. destruct C as [C1 C2]. apply negb_true_iff in C1. subst d.
+        apply N.eqb_eq in C2. subst c.
+        destruct (span_number true s) as [[a0 b0] d0] eqn:E. inversion H; subst. specialize (IH _ _ _ _ E).
+        cbn iota in IH. destruct IH as [-> IH]. exists [], a0. split; [reflexivity|]. split; [reflexivity|exact IH].
+      * inversion H; subst. destruct d'; [split|]; reflexivity.
+Qed.
+
+Section Relex.
+  Variable u : unicode.
+
+  Lemma next_token_printable : forall f s pos t rest pos',
+    next_token u f s pos = Some (t, rest, pos') -> t = TFix KIllegal \/ printable u t.
+  Proof.
+    induction f as [|f IH]; intros s pos t rest pos' H; [discriminate|].
+    destruct s as [|c r]; [discriminate|]. rewrite next_token_S in H. cbv zeta in H.
+    destruct (ident_start u c) eqn:IS.
+    { destruct (span (ident_char u) r) as [a rest0] eqn:E. inversion H; subst. right.
+      apply span_all in E. destruct E as [E _].
+      unfold keyword_or_ident. destruct (assoc_text (c :: a) keywords) as [k|] eqn:K.
+      - apply keyword_spelled in K. unfold spelled in K. apply andb_true_iff in K. destruct K as [K _].
+        apply legal_iff in K. exact K.
+      - cbn [printable]. auto. }
+    destruct (is_digit c) eqn:ID.
+    { destruct (span_number false r) as [[a rest0] dec] eqn:E. inversion H; subst. right.
+      apply span_number_shape in E. cbn iota in E. destruct dec.
+      - destruct E as (ds & fs & -> & H1 & H2). cbn [printable]. exists (c :: ds), fs.
+        split; [reflexivity|]. split; [discriminate|]. split; [cbn [forallb]; rewrite ID, H1; reflexivity|exact H2].
+      - cbn [printable]. split; [discriminate|]. cbn [forallb]. rewrite ID, E. reflexivity. }
+    destruct (N.eqb_spec c 34) as [->|N34].
+    { destruct (span_string_cases r) as [(r0 & rest0 & Hr & E & S)|(NT & S)]; rewrite S in H.
+      - inversion H; subst. right. exact Hr.
+      - inversion H; subst. left. reflexivity. }
+    destruct (is_ws c). { eapply IH. exact H. }
+    destruct (c =? 47)%N.
+    { destruct (match r with d :: _ => (d =? 47)%N | [] => false end).
+      - destruct (span (fun x => negb (x =? 10)%N) r) as [a rest0]. eapply IH. exact H.
+      - inversion H; subst. right. split; discriminate. }
+    destruct (find_double c double_tokens) as [[[second t0] els]|] eqn:FD.
+    { apply double_entry in FD. unfold double_entry_ok in FD.
+      apply andb_true_iff in FD. destruct FD as [FD ELS]. apply andb_true_iff in FD. destruct FD as [SP _].
+      unfold spelled in SP. apply andb_true_iff in SP. destruct SP as [SP _]. apply legal_iff in SP.
+      assert (LE : match els with Some k => k <> KIllegal /\ k <> KEof | None => True end).
+      { destruct els as [k|]; [|exact Logic.I]. apply andb_true_iff in ELS. destruct ELS as [ELS _].
+        unfold spelled in ELS. apply andb_true_iff in ELS. destruct ELS as [ELS _]. apply legal_iff. exact ELS. }
+      cbv zeta in H.
+      destruct (if match r with x :: _ => (x =? second)%N | [] => false end then Some t0 else els) as [k|] eqn:TOK.
+      - assert (LK : k <> KIllegal /\ k <> KEof).
+        { destruct (match r with x :: _ => (x =? second)%N | [] => false end).
+          - inversion TOK; subst. exact SP.
+          - subst els. exact LE. }
+        destruct (is_two_char k); [destruct r|]; inversion H; subst; right; exact LK.
+      - inversion H; subst. left. reflexivity. }
+    destruct (assoc N.eqb c single_tokens) as [k|] eqn:SG.
+    - inversion H; subst. right. apply single_spelled in SG. unfold spelled in SG.
+      apply andb_true_iff in SG. destruct SG as [SG _]. apply legal_iff. exact SG.
+    - inversion H; subst. left. reflexivity.
+  Qed.
+
+  (* every token the lexer returns is KIllegal or has the shape `printable` describes
+     (in particular KEof is never returned, and the raw text of a string literal is a sequence
+     of plain characters and escape pairs) *)
+  Theorem lex_tokens_printable : forall s,
+    Forall (fun t => t = TFix KIllegal \/ printable u t) (tokens u s).
+  Proof.
+    intros s. unfold tokens, lex. generalize (S (length s)) as fuel, 0 as pos. revert s.
+    intros s fuel. revert s. induction fuel as [|fuel IH]; intros s pos; [constructor|].
+    cbn [lex_fuel]. destruct (next_token u (S (length s)) s pos) as [[[t rest] pos']|] eqn:E; [|constructor].
+    cbn [map fst]. constructor; [eapply next_token_printable; exact E|apply IH].
+  Qed.
+
+  (* lexing is idempotent through rendering: an input without illegal tokens and the one-space
+     rendering of its tokens have the same tokens *)
+  Theorem relex_spaces : forall s, ~ In (TFix KIllegal) (tokens u s) ->
+    tokens u (render_spaces (tokens u s)) = tokens u s.
+  Proof.
+    intros s NI. apply lex_render_spaces. pose proof (lex_tokens_printable s) as F.
+    induction F as [|t l [->|P] F IH]; [constructor| |].
+    - exfalso. apply NI. left. reflexivity.
+    - constructor; [exact P|]. apply IH. intros I. apply NI. right. exact I.
+  Qed.
+
+  (* a whole program consisting of one string literal *)
+  Theorem string_literal_tokens : forall s,
+    exists raw, tokens u (34%N :: quote s ++ [34%N]) = [TStringLit raw] /\ decode_string raw = s.
+  Proof.
+    intros s. exists (quote s). split; [|apply string_roundtrip].
+    pose proof (lex_render_spaces u [TStringLit (quote s)]) as H.
+    unfold render_spaces in H. cbn [space_items map render spelling app] in H.
+    rewrite app_nil_r in H. apply H. constructor; [apply quote_raw|constructor].
+  Qed.
+End Relex.
+
+Example ex_unterminated : ~ terminated (str_cps "abc\""").
+Proof. rewrite terminated_iff. vm_compute. congruence. Qed.
+Example ex_unterminated_lex : tokens u0 (str_cps "x = ""abc\"";") = [TIdent (str_cps "x"); TFix KAssign; TFix KIllegal].
+Proof. vm_compute. reflexivity. Qed.
+Example ex_terminated : terminated (str_cps "abc\\"" rest").
+Proof. rewrite terminated_iff. vm_compute. discriminate. Qed.
+Example ex_quote : quote (str_cps "a""b\c") = str_cps "a\""b\\c" /\ quote [10%N; 9%N] = str_cps "\n\t".
+Proof. split; vm_compute; reflexivity. Qed.
+
+(** * 6. Coverage in functional form *)
+
+Lemma covers_render : forall pos s l, covers pos s l -> ~ In (TFix KIllegal) (map fst l) ->
+  exists items trail, map snd items = map fst l /\ Forall gap (map fst items) /\ gap trail /\
+                      s = render items trail.
+Proof.
+  intros pos s l C. induction C as [pos g G|pos g t rest l G N1 N2 N3 C IH|pos g c rest l G C IH|pos g body G NT];
+    intros NI.
+  - exists [], g. repeat split; [constructor|exact G].
+  - destruct IH as (items & trail & M & F & T & R).
+    { intros I. apply NI. right. exact I. }
+    exists ((g, t) :: items), trail. cbn [map fst snd render]. rewrite M, R.
+    repeat split; [constructor; assumption|exact T].
+  - exfalso. apply NI. left. reflexivity.
+  - exfalso. apply NI. left. reflexivity.
+Qed.
+
+(* an input without illegal tokens IS a rendering of its tokens: white space / comments, then a
+   token spelling, ..., then a final gap.  Nothing else is in the text. *)
+Theorem lex_covers_render : forall u s, ~ In (TFix KIllegal) (tokens u s) ->
+  exists items trail, map snd items = tokens u s /\ Forall gap (map fst items) /\ gap trail /\
+                      s = render items trail.
+Proof. intros u s NI. apply (covers_render 0 s (lex u s) (lex_covers u s) NI). Qed.
+
+Example ex_covers : covers 0 (str_cps "a &// x") (lex u0 (str_cps "a &// x")).
+Proof. apply lex_covers. Qed.
+Example ex_covers_tokens : lex u0 (str_cps "a &// x") = [(TIdent (str_cps "a"), 1); (TFix KIllegal, 3)].
+Proof. vm_compute. reflexivity. Qed.
+
+Print Assumptions string_roundtrip.
+Print Assumptions string_lexes.
+Print Assumptions string_literal_denotes.
+Print Assumptions string_literal_tokens.
+Print Assumptions unterminated_is_illegal.
+Print Assumptions fixed_spelling_total.
+Print Assumptions lex_covers.
+Print Assumptions lex_covers_render.
+Print Assumptions two_char_first.
+Print Assumptions one_char_otherwise.
+Print Assumptions one_char_at_end.
+Print Assumptions slash_otherwise.
+Print Assumptions keyword_iff.
+Print Assumptions non_keyword_is_ident.
+Print Assumptions word_lexes.
+Print Assumptions int_lexes.
+Print Assumptions float_lexes.
+Print Assumptions lex_render.
+Print Assumptions lex_render_spaces.
+Print Assumptions lex_tokens_printable.
+Print Assumptions relex_spaces.
